@@ -349,4 +349,86 @@ example : (∃ outA, mapPipeline exTree { dropLevel := some 1, flatten := false,
     [0, 1, 2] [1, 0] (by rfl) rfl exTree_wf (exVote_ok _) rfl (by decide) (by decide)
     (by decide) (by decide)
 
+/-- flatten TOGETHER with drop_level (the combination `_run_mapping` allows):
+the level is dropped first, then the tree is flattened — the run tree is the
+one-level tree of the same leaves either way, so the whole output equals that of
+the run with flatten alone. -/
+theorem flatten_ignores_drop {κ} (t0 t' : RawTree) (cfg : Config) (vote : Oracle κ)
+    (l cl : Level) (pre post : List Level)
+    (ids : List CellId) (cells : List κ) (order : List Nat)
+    (hdrop : t0.dropLevel l = .ok t') (hs : t0.hierarchy = pre ++ l :: cl :: post)
+    (hwf0 : wfb t0 = true) (hv : VoteOK t0.flatten vote)
+    (hlen : ids.length = cells.length) (hnd : ids.Nodup)
+    (hproc : 1 ≤ cfg.nProc) (hcs : 1 ≤ cfg.chunkSize)
+    (horder : order.Perm (List.range
+      (chunks cells.length (effChunk cells.length cfg.nProc cfg.chunkSize)).length)) :
+    mapPipeline t0 { cfg with dropLevel := some l, flatten := true } vote ids cells order =
+      mapPipeline t0 { cfg with dropLevel := none, flatten := true } vote ids cells order :=
+  mapPipeline_flatten_ignores_drop t0 t' cfg vote l cl pre post ids cells order hdrop hs hwf0 hv
+    hlen hnd hproc hcs horder
+
+example : mapPipeline exTree { dropLevel := some 1, flatten := true, chunkSize := 2, nProc := 2 } exVote
+      [7, 3, 9] [0, 1, 2] [1, 0] =
+    mapPipeline exTree { dropLevel := none, flatten := true, chunkSize := 2, nProc := 2 } exVote
+      [7, 3, 9] [0, 1, 2] [1, 0] :=
+  flatten_ignores_drop exTree exDropped { chunkSize := 2, nProc := 2 } exVote 1 2 [0] [] [7, 3, 9]
+    [0, 1, 2] [1, 0] (by rfl) rfl exTree_wf (exVote_ok _) rfl (by decide) (by decide) (by decide)
+    (by decide)
+
+/-- the C17 statement for flatten AND drop_level: the leaf level equals the run
+on the one-level reference (`t0.flatten`), every coarser level of the stored
+hierarchy — the dropped one included — is the copy of the level below with the
+stored tree's parent as assignment, flagged inferred. -/
+theorem flatten_drop_eq {κ} (t0 t' : RawTree) (cfg : Config) (vote : Oracle κ)
+    (l cl ll : Level) (pre post : List Level)
+    (ids : List CellId) (cells : List κ) (order : List Nat)
+    (hdrop : t0.dropLevel l = .ok t') (hs : t0.hierarchy = pre ++ l :: cl :: post)
+    (hleaf : t0.leafLevel = some ll) (hwf0 : wfb t0 = true) (hv : VoteOK t0.flatten vote)
+    (hlen : ids.length = cells.length) (hnd : ids.Nodup)
+    (hproc : 1 ≤ cfg.nProc) (hcs : 1 ≤ cfg.chunkSize)
+    (horder : order.Perm (List.range
+      (chunks cells.length (effChunk cells.length cfg.nProc cfg.chunkSize)).length))
+    (outA outB : List Record)
+    (hA : mapPipeline t0 { cfg with dropLevel := some l, flatten := true } vote ids cells order
+      = .ok outA)
+    (hB : mapPipeline t0.flatten { cfg with dropLevel := none, flatten := false } vote ids cells order
+      = .ok outB)
+    (i : Nat) (id : CellId) (c : κ) (hid : ids[i]? = some id) (hc : cells[i]? = some c) :
+    ∃ a b, outA[i]? = some a ∧ outB[i]? = some b ∧ a.cellId = b.cellId ∧
+      a.levels.lookup ll = b.levels.lookup ll ∧ (b.levels.lookup ll).isSome ∧
+      ∀ cp ∈ pairsOf t0.hierarchy.reverse,
+        ∃ ec pn, a.levels.lookup cp.1 = some ec ∧
+          t0.childToParent cp.1 ec.assignment = some pn ∧
+          a.levels.lookup cp.2 = some (inferred ec pn) := by
+  rw [flatten_ignores_drop t0 t' cfg vote l cl pre post ids cells order hdrop hs hwf0 hv hlen hnd
+    hproc hcs horder] at hA
+  exact flatten_eq t0 cfg vote ll ids cells order hleaf hwf0 hv hlen hnd hproc hcs horder outA outB
+    hA hB i id c hid hc
+
+/-- both runs of `flatten_drop_eq` succeed -/
+theorem flatten_drop_both_succeed {κ} (t0 t' : RawTree) (cfg : Config) (vote : Oracle κ)
+    (l cl ll : Level) (pre post : List Level)
+    (ids : List CellId) (cells : List κ) (order : List Nat)
+    (hdrop : t0.dropLevel l = .ok t') (hs : t0.hierarchy = pre ++ l :: cl :: post)
+    (hleaf : t0.leafLevel = some ll) (hwf0 : wfb t0 = true) (hv : VoteOK t0.flatten vote)
+    (hlen : ids.length = cells.length) (hnd : ids.Nodup)
+    (hproc : 1 ≤ cfg.nProc) (hcs : 1 ≤ cfg.chunkSize)
+    (horder : order.Perm (List.range
+      (chunks cells.length (effChunk cells.length cfg.nProc cfg.chunkSize)).length)) :
+    (∃ outA, mapPipeline t0 { cfg with dropLevel := some l, flatten := true } vote ids cells order
+      = .ok outA) ∧
+    (∃ outB, mapPipeline t0.flatten { cfg with dropLevel := none, flatten := false } vote ids cells
+      order = .ok outB) := by
+  rw [flatten_ignores_drop t0 t' cfg vote l cl pre post ids cells order hdrop hs hwf0 hv hlen hnd
+    hproc hcs horder]
+  exact flatten_both_succeed t0 cfg vote ll ids cells order hleaf hwf0 hv hlen hnd hproc hcs horder
+
+example : (∃ outA, mapPipeline exTree { dropLevel := some 1, flatten := true, chunkSize := 2, nProc := 2 }
+      exVote [7, 3, 9] [0, 1, 2] [1, 0] = .ok outA) ∧
+    (∃ outB, mapPipeline exTree.flatten { dropLevel := none, flatten := false, chunkSize := 2, nProc := 2 }
+      exVote [7, 3, 9] [0, 1, 2] [1, 0] = .ok outB) :=
+  flatten_drop_both_succeed exTree exDropped { chunkSize := 2, nProc := 2 } exVote 1 2 2 [0] []
+    [7, 3, 9] [0, 1, 2] [1, 0] (by rfl) rfl (by decide) exTree_wf (exVote_ok _) rfl (by decide)
+    (by decide) (by decide) (by decide)
+
 end CTM.C17
